@@ -122,6 +122,47 @@ def main(argv):
     ck.prove()
     rng = ck.rng
     terms, metas, seen = [], [], set()
+    # directed: events of ONE version that differ only in whether an optional property has a value (with and without
+    # an older instance that has it): the outcome — merged objects or conflict — must not depend on the arrival order
+    ndir = 0
+    for strat in ('replace', 'add', 'min', 'max'):
+        for dt in sorted(M.POOLS)[:: 1 if ck.thorough() else 3]:
+            if strat in ('min', 'max') and dt not in M.MINMAX_TYPES:
+                continue
+            pool = M.POOLS[dt][0]
+            if len(pool) < 2:
+                continue
+            seqs = M.POOLS['sequence'][0]
+            et = {'props': [{'name': 'p0', 'object_type': 'o0', 'data_type': dt, 'merge': strat, 'multivalued': False, 'optional': True},
+                            {'name': 'v', 'object_type': 'ov', 'data_type': 'sequence', 'merge': 'max', 'multivalued': False, 'optional': False}],
+                  'version': 'v'}
+            try:
+                onto = M.load_ontology(et)
+            except Exception:
+                continue
+            lo, hi = sorted(seqs[:2], key=int)
+            for with_old in (False, True):
+                group = [{'props': {'p0': [pool[0]], 'v': [hi]}, 'parents': [], 'tag': 1},
+                         {'props': {'v': [hi]}, 'parents': [], 'tag': 2}]
+                if with_old:
+                    group.append({'props': {'p0': [pool[1]], 'v': [lo]}, 'parents': [], 'tag': 3})
+                base = None
+                for perm in itertools.permutations(range(len(group))):
+                    g = [group[j] for j in perm]
+                    status, obs, _ = merge_obs(onto, et, g, 'EDXMLEvent')
+                    ck.cov['evaluations'] += 1
+                    ndir += 1
+                    if status == 'exception':
+                        ck.oracle_failures.append({'signature': 'exception/' + obs.split(':')[0], 'input': {'etype': et, 'perm_a': g, 'perm_b': g}, 'observed': obs})
+                        break
+                    c = canon(et, status, obs)
+                    if base is None:
+                        base, base_g = c, g
+                    elif c != base:
+                        ck.oracle_failures.append({'signature': 'permutation/%s/same-version-presence' % strat, 'input': {'etype': et, 'perm_a': base_g, 'perm_b': g},
+                                                   'observed': 'merge(perm_a)=%r merge(perm_b)=%r' % (base, c)})
+                        break
+    ck.cov['directed_same_version_presence'] = '%d merges: optional property present in one of two instances of the top version, all arrival orders' % ndir
     n = ck.budget(150, 4000)
     for i in range(n):
         et = M.gen_etype(rng)
